@@ -151,6 +151,50 @@ let hash_key_eq (a : version) (b : version) : bool =
 let int_types = ["u8", 8, false; "u16", 16, false; "u32", 32, false; "u64", 64, false; "usize", 64, false;
                  "i8", 8, true; "i16", 16, true; "i32", 32, true; "i64", 64, true; "isize", 64, true]
 
+(* ---------- range syntax trees (case c01) ---------- *)
+let partial_of = function
+  | L [A "p"; L xs; L tag; L bld] ->
+    let comp = function A "x" -> None | A d -> Some (n_of_dec d) | _ -> raise (Bad "component") in
+    let xs = List.map comp xs in
+    let nth k = if k < List.length xs then List.nth xs k else None in
+    (* once a component is a wildcard, everything after it is one as well *)
+    let ma = nth 0 in
+    let mi = (match ma with None -> None | Some _ -> nth 1) in
+    let pa = (match mi with None -> None | Some _ -> nth 2) in
+    let full = (match pa with Some _ -> true | None -> false) in
+    { p_major = ma; p_minor = mi; p_patch = pa;
+      p_pre = (if full then List.map ident_of tag else []);
+      p_build = (if full then List.map ident_of bld else []) }
+  | _ -> raise (Bad "partial")
+let form_of = function
+  | "bare" -> FBare | "eq" -> FEq | "gt" -> FGt | "gte" -> FGte | "lt" -> FLt | "lte" -> FLte
+  | "tilde" -> FTilde | "tildegt" -> FTildeGt | "caret" -> FCaret | _ -> raise (Bad "form")
+let comp_of = function
+  | L [A "c"; A f; p] -> Comp (form_of f, partial_of p)
+  | L [A "garbage"; _] -> Garbage
+  | _ -> raise (Bad "comp")
+let alt_of = function
+  | L [A "hyphen"; A "none"; hi] -> AHyphen (None, partial_of hi)
+  | L [A "hyphen"; lo; hi] -> AHyphen (Some (partial_of lo), partial_of hi)
+  | L [A "set"; L cs] -> ASet (List.map comp_of cs)
+  | _ -> raise (Bad "alt")
+let ast_of = function
+  | L (A "ast" :: alts) -> List.map alt_of alts
+  | _ -> raise (Bad "ast")
+
+(* SPEC line for a c01 case: (STRUCT (npm answers) (in a recorded departure class)) *)
+let spec_result (case : sexp) : sexp option =
+  match case with
+  | L [A "c01"; _; ast; L vs] ->
+    let t = ast_of ast in
+    let r = compile t in
+    let st = (match r with [] -> A "none" | _ -> L [A "some"; sexp_of_range r]) in
+    let vs = List.map version_of vs in
+    Some (L [st;
+             L (List.map (fun v -> sexp_of_bool (npm_admits t v)) vs);
+             L (List.map (fun v -> sexp_of_bool (List.exists (fun a -> known_class a v) t)) vs)])
+  | _ -> None
+
 (* ---------- the model's answer for one case ---------- *)
 (* returns None when there is nothing to compare (SKIP) *)
 let model_result (case : sexp) (impl : sexp) : sexp option =
@@ -268,6 +312,9 @@ let () =
             let cs = String.sub line 0 i and rs = String.sub line (i + 1) (String.length line - i - 1) in
             (try
                let case = parse_sexp cs and impl = parse_sexp rs in
+               match spec_result case with
+               | Some sp -> (Buffer.add_string out "SPEC\t"; Buffer.add_string out (sexp_to_string sp); Buffer.add_char out '\n')
+               | None ->
                match model_result case impl with
                | None -> Buffer.add_string out "SKIP\n"
                | Some m ->
